@@ -551,7 +551,16 @@ func runDagCase(c *DagCase, d *Driver) *DagResult {
 		}
 		if _, ok := r.sharedNow[t.ID]; !ok {
 			r.sharedNow[t.ID] = new(int32)
-			r.taskErrs[t.ID] = fmt.Errorf("task-%d-failed", t.ID)
+			// a third of the failing tasks fail with an error that wraps a context error: to the
+			// scheduler it is a task failure like any other
+			switch (int64(t.ID) + r.c.CtlSeed%3) % 3 {
+			case 0:
+				r.taskErrs[t.ID] = fmt.Errorf("task-%d-failed", t.ID)
+			case 1:
+				r.taskErrs[t.ID] = fmt.Errorf("task-%d-failed: %w", t.ID, context.Canceled)
+			default:
+				r.taskErrs[t.ID] = fmt.Errorf("task-%d-failed: %w", t.ID, context.DeadlineExceeded)
+			}
 		}
 		tk := dag.NewTask(id, fn)
 		tasks[key] = tk
